@@ -669,6 +669,8 @@ func runC11(cfg *runCfg) (*Summary, error) {
 var c11Builtins = []string{
 	"ts.I = atoi(jso.big)\nts.I64 = strToInt(\"105999\")\nobj.Status = atoi(jso.bigs)\nts.U64 = atou(jso.big)\nobj.Ustate = strToUint(\"70000\")\n",
 	"ts.S = itoa(jso.big)\nobj.Id = intToStr(st.Status)\nobj.Name = utoa(jso.big)\nts.B = uintToStr(st.Ustate)\n",
+	// number-to-text conversions through the context's accumulative buffer, several in one decode
+	"obj.Id = st.Status\nobj.Name = st.Ustate\nts.S = st.Finance.History.0.DateUnix\nts.B = st.Finance.History.1.DateUnix\nobj.Finance.History[0].Comment = st.Status\n",
 	"ts.I64 = crc32(jso.s, jso.big, \"lit\")\nobj.Status = crc32(st.Id)\nobj.Finance.AllowBuy = atob(jso.t)\nobj.Finance.AllowBuy = strToBool(\"true\")\n",
 	"obj.Name = jso.nul|default(jso.s)\nobj.Id = jso.missing|def(\"dflt\")\nts.S = jso.t|ifThen(jso.s)\nts.B = jso.fl|ifThenElse(\"yes\", jso.s2)\nobj.Status = jso.z|default(jso.big)\n",
 	"for i := 250; i < 262; i++ {\nobj.Status = i\nts.I = i\n}\nfor k, v := range jso.a {\nts.I64 = atoi(v)\n}\n",
